@@ -242,6 +242,8 @@ def handle (j : Json) : R Json := do
           return Json.mkObj [("bad", jarr [Json.str "unstable-untouched", jnat 0, Json.str ""])]
     | .error _ => pure ()
     -- registration: the module objects of the node (with their export flag) against the list the report is made from
+    -- (reported together with what the sweep finds: a module that is not registered is not described, yet reachable)
+    let mut pre : List Json := []
     match j.getObjVal? "registry" with
     | .ok rj =>
       if !rj.isNull then
@@ -252,11 +254,11 @@ def handle (j : Json) : R Json := do
         let registered ← fldStrs rj "export"
         if !(registeredB created registered) then
           let missing := ((created.filter (·.2)).map (·.1)).filter (fun m => !registered.contains m)
-          return Json.mkObj [("bad", jarr [Json.str "unregistered-module", jnat 0, Json.str (",".intercalate missing)])]
-        if !(reportFollowsB registered r1) then
-          return Json.mkObj [("bad", jarr [Json.str "lists", jnat 0, Json.str ""])]
+          pre := pre ++ [jarr [Json.str "unregistered-module", jnat 0, Json.str (",".intercalate missing)]]
+        else if !(reportFollowsB registered r1) then
+          pre := pre ++ [jarr [Json.str "lists", jnat 0, Json.str ""]]
     | .error _ => pure ()
-    if !(listsExactlyB predef n r1) then return Json.mkObj [("bad", jarr [Json.str "lists", jnat 0, Json.str ""])]
+    if pre.isEmpty && !(listsExactlyB predef n r1) then pre := pre ++ [jarr [Json.str "lists", jnat 0, Json.str ""]]
     -- interface class and features against the class chain of the implementing class
     for c in ← fldArr j "classes" do
       let m ← fldStr c "m"
@@ -276,7 +278,7 @@ def handle (j : Json) : R Json := do
     -- attribute a disagreement at a scaled limit off the grid to the recorded finding `scaled-limit-off-grid`; the
     -- finding is fixed: such a disagreement is a violation like any other)
     -- every failing item is reported (one finding must not hide another kind of failure in the same node)
-    let mut bads : List Json := []
+    let mut bads : List Json := pre
     -- requests: report against behaviour
     for s in ← fldArr j "steps" do
       let req ← parseReq (← fld s "req")
